@@ -330,10 +330,14 @@ func GridFor(o Offer, full bool, rg *rand.Rand) []GridCase {
 					hrr = 0
 				}
 			}
+			gc := GridCase{Dim: "group13", Val: fmt.Sprintf("%04x", g), Server: c, WantVersion: tls.VersionTLS13, WantHRR: hrr, WantGroup: g}
 			if g == 0x11ec && hrr == 1 {
-				continue // the Go client/server never select a hybrid group through HRR (documented limitation of the server)
+				// the hello lists the hybrid group but sends no share for it: a server that only
+				// enables that group answers with a HelloRetryRequest, and the client cannot
+				// produce a hybrid share then (known finding F44)
+				gc.Val += "-via-hrr"
 			}
-			out = append(out, GridCase{Dim: "group13", Val: fmt.Sprintf("%04x", g), Server: c, WantVersion: tls.VersionTLS13, WantHRR: hrr, WantGroup: g})
+			out = append(out, gc)
 		}
 		if has12 && g != 0x11ec && (full || !has13) {
 			c := base()
@@ -525,6 +529,21 @@ func sawHRR(s2c []byte) bool {
 	return false
 }
 
+// hrrGroup returns the group a HelloRetryRequest in the server's flight names (0: none).
+func hrrGroup(s2c []byte) uint16 {
+	msgs, _, _, _ := wire.PlainHandshake(s2c)
+	for _, m := range msgs {
+		if m.Type == 2 {
+			if sh, err := wire.ParseServerHello(m.Raw); err == nil && sh.IsHRR {
+				if e := sh.Ext(wire.ExtKeyShare); e != nil && len(e.Data) >= 2 {
+					return uint16(e.Data[0])<<8 | uint16(e.Data[1])
+				}
+			}
+		}
+	}
+	return 0
+}
+
 // stateCurve reads the unexported ConnectionState.testingOnlyCurveID (read-only).
 func stateCurve(cs tls.ConnectionState) (uint16, bool) {
 	v := reflect.ValueOf(cs).FieldByName("testingOnlyCurveID")
@@ -653,6 +672,31 @@ func NoShareTargets() []Target {
 				return &sp, nil
 			}})
 		}
+	}
+	return out
+}
+
+// HybridListedOnlyTargets: specs that list X25519MLKEM768 in supported_groups but send
+// shares for classical groups only.
+func HybridListedOnlyTargets() []Target {
+	var out []Target
+	for _, pn := range []string{"Chrome_120", "Firefox_120"} {
+		p := ParrotByName(pn)
+		out = append(out, Target{Name: p.Name + "+hybrid-listed-not-shared", Spec: func() (*tls.ClientHelloSpec, error) {
+			sp, err := tls.UTLSIdToSpec(p.ID)
+			if err != nil {
+				return nil, err
+			}
+			for i, e := range sp.Extensions {
+				switch e.(type) {
+				case *tls.SupportedCurvesExtension:
+					sp.Extensions[i] = &tls.SupportedCurvesExtension{Curves: []tls.CurveID{tls.X25519MLKEM768, tls.X25519, tls.CurveP256, tls.CurveP384}}
+				case *tls.KeyShareExtension:
+					sp.Extensions[i] = &tls.KeyShareExtension{KeyShares: []tls.KeyShare{{Group: tls.X25519}}}
+				}
+			}
+			return &sp, nil
+		}})
 	}
 	return out
 }
